@@ -364,3 +364,56 @@ def _descr(g: Grammar, y) -> str:
     if y == 0:
         return 'accept'
     return 'reduce by `%s`' % g.productions[-y]
+
+
+# ------------------------------------------------------------ table queries
+def simulate(t: Tables, tokens: List[str], max_steps: int = 10000) -> Tuple[bool, str, List[int]]:
+    """Drive the automaton over a token skeleton (a path query on the tables; no program text, no actions).
+
+    Returns (accepted, description of where it stopped, list of production indices reduced)."""
+    g = t.grammar
+    stack = [0]
+    toks = list(tokens) + [END]
+    i = 0
+    reduced: List[int] = []
+    for _ in range(max_steps):
+        s = stack[-1]
+        a = toks[i]
+        act = t.action[s].get(a)
+        if act is None:
+            # default reduction states (PLY's defaulted_states): a single reduce regardless of lookahead
+            return (False, 'no action in state %d on %s (token %d of the skeleton)' % (s, a, i), reduced)
+        if act[0] == 's':
+            stack.append(act[1])
+            i += 1
+        elif act[0] == 'r':
+            p = g.productions[act[1]]
+            if p.rhs:
+                del stack[-len(p.rhs):]
+            stack.append(t.goto[stack[-1]][p.lhs])
+            reduced.append(p.index)
+        elif act[0] == 'acc':
+            return (True, 'accepted', reduced)
+        else:
+            return (False, 'non-associative error entry in state %d on %s' % (s, a), reduced)
+    return (False, 'step limit', reduced)
+
+
+def shortest_expansions(g: Grammar, skip=()) -> Dict[str, Tuple[str, ...]]:
+    """Shortest terminal string each non-terminal derives (productions in `skip` are not used)."""
+    nts = set(g.nonterminals)
+    best: Dict[str, Tuple[str, ...]] = {}
+    changed = True
+    while changed:
+        changed = False
+        for p in g.productions[1:]:
+            if p.index in skip:
+                continue
+            if all(s not in nts or s in best for s in p.rhs):
+                exp: Tuple[str, ...] = ()
+                for s in p.rhs:
+                    exp += best[s] if s in nts else (s,)
+                if p.lhs not in best or len(exp) < len(best[p.lhs]):
+                    best[p.lhs] = exp
+                    changed = True
+    return best
